@@ -13,6 +13,7 @@ static inline size_t keyt_size(const keyt *k) { return k->len; }
 /* core::ValueType = std::vector<uint8_t> */
 typedef struct vbytes { uint8_t *ptr; size_t len; } vbytes;
 static inline vbytes vbytes_new(size_t n) { vbytes v; v.ptr = malloc(n); __CPROVER_assume(v.ptr != 0); v.len = n; return v; }
+static inline vbytes vbytes_empty(void) { vbytes v; v.ptr = 0; v.len = 0; return v; }
 static inline uint8_t *vbytes_data(const vbytes *v) { return v->ptr; }
 static inline size_t vbytes_size(const vbytes *v) { return v->len; }
 
